@@ -8,7 +8,11 @@ use std::path::{Path, PathBuf};
 use std::process::{Command, Stdio};
 use std::time::{Duration, Instant};
 
-pub const RG: &str = "/verif/target/rg/debug/rg";
+/// The rg binary built from /repo's working tree by the `check` script
+/// (overridable with VERIF_RG for scratch copies).
+pub fn rg_path() -> String {
+    std::env::var("VERIF_RG").unwrap_or_else(|_| format!("{}/target/rg/debug/rg", crate::runner::verif_root()))
+}
 
 #[derive(Debug, Clone)]
 pub struct Out {
@@ -43,7 +47,7 @@ impl Rg {
             drop_uid: false,
             timeout: Duration::from_secs(20),
             close_stdout_after: None,
-            program: RG.to_string(),
+            program: rg_path(),
         }
     }
     pub fn program(mut self, p: &str) -> Rg {
